@@ -30,7 +30,7 @@ ASSUMPTIONS = [
     "setna lists are non-empty; dict keys cover every label",
 ]
 MANDATORY = ["take_axis:negative-position", "sort_axis", "sort_axis:key", "sort_axis:dict", "take_axis:label", "take_axis:position", "take_axis:repeats", "compress_axis",
-             "compress:nd", "dropna:minvalid", "dropna:default", "dropna:1d", "dropna:partial", "fillna", "fillna:inplace", "setna:value",
+             "compress:nd", "dropna:minvalid", "dropna:default", "dropna:1d", "dropna:partial", "fillna", "fillna:inplace", "fillna:positional", "setna:value",
              "setna:list", "setna:mask", "setna:list+mask", "setna:int-data", "setna:near-miss-value", "setna:near-miss-value-int-data", "axis:not-first", "labels:shuf", "labels:s"]
 
 
@@ -87,7 +87,7 @@ def case_st(draw):
         p["mask"] = draw(st.lists(st.booleans(), min_size=ncell, max_size=ncell))
         p["how"] = draw(st.sampled_from(["compress", "getitem", "getitem-dimarray"]))
     elif op == "fillna":
-        p = {"value": draw(st.sampled_from([0.0, -1, 7.5, "missing"])), "inplace": draw(st.booleans())}
+        p = {"value": draw(st.sampled_from([0.0, -1, 7.5, "missing", 1, True])), "inplace": draw(st.booleans()), "positional": draw(st.integers(0, 2)) == 0}
     elif op == "setna":
         present = [v for v in vals if v != "NaN"]
         form = draw(st.sampled_from(["value", "list", "mask", "mask-dimarray", "absent", "list+mask", "near"]))
@@ -319,7 +319,15 @@ def run_case(case):
         exp = np.asarray(vals, dtype=object).copy()
         nanmask = np.array([core.isnan(x) for x in exp.ravel().tolist()]).reshape(exp.shape)
         exp[nanmask] = v
-        if p["inplace"]:
+        if p.get("positional"):
+            # the documented signature fillna(value, inplace=False, na=nan), second argument given by position
+            r = lib(lambda: a.fillna(v, bool(p["inplace"])), what=what + " [inplace by position]", sig=sig)
+            res = a if p["inplace"] else r
+            check((r is None) == bool(p["inplace"]), "fillna-return-convention", {"what": what, "returned": core.brief(r)}, sig)
+            cl.add("fillna:positional")
+            if p["inplace"]:
+                cl.add("fillna:inplace")
+        elif p["inplace"]:
             r = lib(lambda: a.fillna(v, inplace=True), what=what, sig=sig)
             res = a
             cl.add("fillna:inplace")
